@@ -164,6 +164,15 @@ def _inline_into(host, bb_index, callee, tymap):
         host['blocks'].append(nb)
 
 
+def _is_local_closure(host, t, host_name):
+    """A direct call of a closure that this very function defines (`let done = || ..; while !done() { .. }`): reading it inline is reading
+    the loop it abbreviates.  Closures that arrive as arguments or escape into other values are left alone."""
+    cname = str(t.get('self_ty', ''))[len('{closure:'):-1]
+    if not cname.startswith(host_name + '::{closure#') or cname.count('::{closure#') != host_name.count('::{closure#') + 1:
+        return False
+    return True
+
+
 def _adapt_closure_call(host, t, closure):
     """Rewrites `Fn*::call*(f, (a, b, ..))` into a plain call `closure(f, a, b, ..)` when the way the closure value is passed matches what
     its body expects (by reference for call / call_mut, by value for call_once).  Returns the new terminator or None."""
@@ -229,7 +238,8 @@ def flatten(j):
                     callee = t['resolved']
                 elif t['func'].get('fn') in helpers and t.get('rk') != 'virtual':
                     callee = t['func']['fn']
-                elif b.get('inl') and (t.get('trait') or '').startswith('core::ops::function::Fn') and str(t.get('self_ty', '')).startswith('{closure:'):
+                elif (t.get('trait') or '').startswith('core::ops::function::Fn') and str(t.get('self_ty', '')).startswith('{closure:') \
+                        and (b.get('inl') or _is_local_closure(f, t, name)):
                     # inside an inlined helper, a call of its closure parameter is now a call of a known closure: inline that too, so that
                     # `helper(|| test())` reads like the loop it replaced
                     cname = t['self_ty'][len('{closure:'):-1]
